@@ -40,7 +40,50 @@ def kalman_case(draw, max_n=3, max_N=8, allow_tv_stds=True):
         tv = {"index": which, "values": [draw(pstd) for _ in range(N)]}
     return {"spec": spec, "N": N, "std_u": std_u, "std_w": std_w, "data": data, "mask": mask, "tv": tv,
             "deviation": draw(st.booleans()), "rescale": draw(st.integers(0, 3)) == 0,
-            "freq": draw(st.sampled_from(["Q", "Q", "M", "Y", "I"]))}
+            "freq": draw(st.sampled_from(["Q", "Q", "M", "Y", "I"])),
+            "returns": draw(st.integers(0, len(RETURN_CHOICES) - 1))}
+
+
+# Output selections of kalman_filter (index 0: everything, the default). Selecting fewer outputs must not change
+# the values of those that are returned.
+RETURN_CHOICES = [
+    {},
+    {"return_": ("smooth",)},
+    {"return_": ("update", "smooth")},
+    {"return_predict": False},
+    {"return_": ("predict",)},
+    {"return_": ("update",)},
+    {"return_update": False, "return_predict_err": False},
+]
+
+
+def return_kwargs(case, need=None):
+    """Keyword arguments of the case's output selection; {} if `need` (a step name) would not be returned."""
+    kw = RETURN_CHOICES[case.get("returns", 0) % len(RETURN_CHOICES)]
+    if need is not None:
+        if "return_" in kw and need not in kw["return_"]:
+            return {}
+        if kw.get("return_" + need) is False:
+            return {}
+    return dict(kw)
+
+
+def compare_selected(col, bucket, out_sel, out_full, span, rtol=1e-10):
+    """Every series of every databox returned under an output selection equals the same series of the full run."""
+    for key in out_sel.keys():
+        a, b = out_sel[key], out_full[key]
+        if key == "predict_mse_obs":
+            for va, vb in zip(a, b):
+                for t, (x, y) in enumerate(zip(va, vb)):
+                    x, y = np.asarray(x, dtype=float), np.asarray(y, dtype=float)
+                    ok = x.shape == y.shape and bool(np.allclose(x, y, rtol=rtol, atol=1e-12, equal_nan=True))
+                    col.check(ok, f"{bucket}:predict_mse_obs", lambda: f"t={t}: selected run {x.tolist()} full run {y.tolist()}")
+            continue
+        for name in a.keys():
+            x = np.asarray(a[name].get_data(span), dtype=float)
+            y = np.asarray(b[name].get_data(span), dtype=float)
+            ok = x.shape == y.shape and bool(np.allclose(x, y, rtol=rtol, atol=1e-12, equal_nan=True))
+            col.check(ok, f"{bucket}:{key}", lambda: f"{key}[{name}]: selected run {x.ravel().tolist()} full run {y.ravel().tolist()}")
 
 
 def in_domain(spec):
